@@ -10,7 +10,7 @@ use serde_json::Value as J;
 macro_rules! harness {
     ($name:ident, $body:expr) => {
         #[kani::proof]
-        #[kani::unwind(5)]
+        #[kani::unwind(3)]
         #[kani::stub(crate::parser::parse_value, no_parse_value)]
         #[kani::stub(std::ptr::drop_in_place, noop_drop)]
         fn $name() {
@@ -112,55 +112,53 @@ fn bridge(d: &B) {
     assert!(o.is_ok());
     let o = o.unwrap();
     if d.node(d.root).kind == K_OBJ {
-        let m = o.unwrap();
-        let jo = J::Object(m);
+        assert!(o.is_some(), "to_serde_json_object returns the members of an object");
+        let jo = J::Object(o.unwrap());
         assert!(j_matches(&jo, d, d.root), "to_serde_json_object returns the members of an object");
         core::mem::forget(jo);
     } else {
         assert!(o.is_none(), "to_serde_json_object returns nothing for other kinds");
+        core::mem::forget(o);
     }
-    // serde_json -> Value -> bytes: back to the same document (non-negative integers come back unsigned,
-    // which is how the document stores them when it came from text)
-    let v: Value = (&j).into();
-    let back = v.to_vec();
-    let tree = parse_jsonb(d.bytes()).unwrap();
-    // Value -> serde_json from the tree agrees with the byte path
-    let j2: J = tree.clone().into();
-    assert!(j2 == j, "the value-tree conversion agrees with the byte-level conversion");
-    let mut all_unsigned = true;
-    let mut i = 0;
-    while i < d.nn {
-        let x = d.node(i);
-        if x.kind == K_NUM {
-            if let Number::Int64(q) = d.num(&x) {
-                if q >= 0 {
-                    all_unsigned = false;
-                }
-            }
-        }
-        i += 1;
+    core::mem::forget(j);
+}
+
+/// scalar round trip through the Value conversions: Value -> serde_json -> Value
+fn value_bridge(d: &B) {
+    kani::assume(finite(d));
+    let x = d.node(d.root);
+    let v = match x.kind {
+        K_NULL => Value::Null,
+        K_TRUE => Value::Bool(true),
+        K_FALSE => Value::Bool(false),
+        _ => Value::Number(d.num(&x)),
+    };
+    let j: J = v.clone().into();
+    assert!(j_matches(&j, d, d.root), "Value -> serde_json gives the same scalar");
+    let back: Value = (&j).into();
+    assert!(back == v, "serde_json -> Value gives back an equal value");
+    if let (Value::Number(a), Value::Number(b)) = (&back, &v) {
+        let same_repr = matches!((a, b), (Number::UInt64(_), Number::UInt64(_)) | (Number::Float64(_), Number::Float64(_)) | (Number::Int64(_), Number::Int64(_)));
+        let nonneg_int = matches!(b, Number::Int64(q) if *q >= 0);
+        assert!(same_repr || (nonneg_int && matches!(a, Number::UInt64(_))), "the number comes back in the same representation (non-negative integers unsigned)");
     }
-    if all_unsigned {
-        assert!(same(&back, &d.b, d.n), "serde_json -> Value -> JSONB gives back the identical document");
-    }
-    assert!(v == tree, "converting back gives a value equal to the original");
-    core::mem::forget((j, j2, v, back, tree));
+    core::mem::forget((j, back, v));
 }
 
 //@ props: C19
-//@ timeout: 1800
-//@ harness: c19_scalar, c19_shape_0, c19_shape_2, c19_shape_3, c19_shape_4, c19_shape_8, c19_empty
-//@ desc: to_serde_json / to_serde_json_object on scalar documents of all classes (numbers restricted to finite) and on [x,y,s], [x,{k:y},n], {k:x,kk:y}, {"":x,k:[y]}, {a:{j:x},b:y,cc:null}, [], {}, [{}], {k:{}} with symbolic payloads: the serde_json value has the same structure, strings, member sets and each number as the same u64/i64/f64; the object-only variant returns the members for objects and nothing otherwise; serde_json -> Value -> bytes returns the identical document when non-negative integers are stored unsigned; the Value-tree conversion agrees with the byte-level one
+//@ timeout: 1200
+//@ harness: c19_scalar_a, c19_scalar_b, c19_value_scalar, c19_arr, c19_obj, c19_nested, c19_empty
+//@ desc: to_serde_json / to_serde_json_object on scalar documents of all 11 classes (finite numbers), on [x,y,s], {k:x,kk:y}, [x,{k:y},n] and on [], {}, [{},[]], {k:{},kk:[]} with symbolic payloads: the serde_json value has the same structure, strings, member sets and each number as the same u64/i64/f64 (so an unsigned integer above i64::MAX stays unsigned, a nested empty object stays an object); the object-only variant returns the members for objects and nothing otherwise; Value -> serde_json -> Value on every scalar class returns an equal value in the same representation
 //@ fns: to_serde_json, to_serde_json_object, containter_to_serde_json, containter_to_serde_json_object, scalar_to_serde_json, From<&serde_json::Value> for Value, From<Value> for serde_json::Value
 //@ bounds: depth 2, <= 3 children; finite numbers; serde_json built without preserve_order (BTreeMap-backed Map)
 //@ stubs: parse_value -> panic | drop_in_place -> no-op
-//@ outside: the preserve_order (IndexMap) build of serde_json | non-finite numbers | the JSON-text branch of to_serde_json (serde_json's own parser)
-harness!(c19_scalar, split1(NCLS, |i| bridge(&B::build(&lf(CLS[i])))));
-harness!(c19_shape_0, shapes_split(0, &CLS_T, 2, |d| bridge(d)));
-harness!(c19_shape_2, shapes_split(2, &CLS_T, 2, |d| bridge(d)));
-harness!(c19_shape_3, shapes_split(3, &CLS_S, 3, |d| bridge(d)));
-harness!(c19_shape_4, shapes_split(4, &CLS_T, 2, |d| bridge(d)));
-harness!(c19_shape_8, with_shape(8, (K_NUM, 9), (K_STR, 1), |d| bridge(d)));
+//@ outside: the preserve_order (IndexMap) build of serde_json | non-finite numbers | the JSON-text branch of to_serde_json (serde_json's parser) | Value <-> serde_json conversions of containers
+harness!(c19_scalar_a, split1(6, |i| bridge(&B::build(&lf(CLS[i])))));
+harness!(c19_scalar_b, split1(5, |i| bridge(&B::build(&lf(CLS[6 + i])))));
+harness!(c19_value_scalar, split1(8, |i| value_bridge(&B::build(&lf(CLS[i])))));
+harness!(c19_arr, with_shape(0, (K_NUM, 9), (K_NULL, 0), |d| bridge(d)));
+harness!(c19_obj, with_shape(3, (K_NUM, 2), (K_STR, 1), |d| bridge(d)));
+harness!(c19_nested, with_shape(2, (K_TRUE, 0), (K_NUM, 9), |d| bridge(d)));
 harness!(c19_empty, split1(4, |k| match k {
     0 => bridge(&B::build(&arr(&[]))),
     1 => bridge(&B::build(&obj(&[], &[]))),
@@ -174,7 +172,7 @@ harness!(c19_empty, split1(4, |k| match k {
 //@ desc: vacuity twin: converting a number document claimed to fail — must be refuted
 //@ fns: to_serde_json
 #[kani::proof]
-#[kani::unwind(5)]
+#[kani::unwind(3)]
 #[kani::stub(crate::parser::parse_value, no_parse_value)]
 #[kani::stub(std::ptr::drop_in_place, noop_drop)]
 fn c19_twin_must_fail() {
